@@ -13,11 +13,19 @@ namespace Coma.Props
 open Coma Coma.Spec
 
 /-- the clusters are summaries of a partition of the input into consecutive groups:
-    nothing is lost, invented, mixed or shrunk -/
-theorem C20_partition (blur : Int) (calls : List Call) :
+    nothing is lost, invented, mixed or shrunk.  Input calls carry Count 1 (the finders never
+    set another value; `cluster_indels` appends `[1]` itself).  Without that hypothesis the
+    statement is false — `Call.merge` adds 1, not the merged call's count — see
+    `C20_partition_needs_unit_counts`. -/
+theorem C20_partition (blur : Int) (calls : List Call) (h1 : ∀ c ∈ calls, c.count = 1) :
     ∃ gs : List (List Call), gs.flatten = calls ∧
       Forall2 Summarises (clusterIndels blur calls) gs :=
-  Coma.Proofs.cluster_partition blur calls
+  Coma.Proofs.cluster_partition blur calls h1
+
+theorem C20_partition_needs_unit_counts :
+    ¬ ∃ gs, gs.flatten = Coma.Proofs.Indel.cex ∧
+      Forall2 Summarises (clusterIndels 30000 Coma.Proofs.Indel.cex) gs :=
+  Coma.Proofs.Indel.cluster_partition_false
 
 /-- Count values sum to the number of input calls -/
 theorem C20_count (blur : Int) (calls : List Call) (h1 : ∀ c ∈ calls, c.count = 1) :
